@@ -263,11 +263,21 @@ def codec_hook(ctx: Ctx, sink: Sink, enter: Callable[[str, List[Any]], bool], ch
             import struct as _st
 
             fmt = f.fold(e.args[0])
-            f.fold(e.args[1])
+            val = f.fold(e.args[1])
             try:
                 n = _st.calcsize(fmt)
             except Exception:
                 raise Unfoldable("struct format %r" % (fmt,))
+            if isinstance(val, (int, float)) and not isinstance(val, (bool, Abstract)):
+                # a concrete operand: packing succeeds or overflows as the real call would; the bytes stay symbolic, the term
+                # names the value packed
+                try:
+                    _st.pack(fmt, val)
+                except OverflowError:
+                    raise Raised("OverflowError", e)
+                except _st.error:
+                    raise Raised("struct.error", e)
+                return [AbsInt(("packed-byte", fmt, i, val)) for i in range(n)]
             return [AbsInt(("packed-byte", fmt, i)) for i in range(n)]
         if name in ("struct.unpack", "unpack") and len(e.args) == 2:
             fmt = f.fold(e.args[0])
@@ -297,7 +307,22 @@ def codec_hook(ctx: Ctx, sink: Sink, enter: Callable[[str, List[Any]], bool], ch
         kwargs = {k.arg: f.fold(k.value) for k in e.keywords if k.arg}
         io = next((a for a in args if isinstance(a, (AWriter, AReader))), None)
         ty = next((a for a in args if isinstance(a, Sym) and hasattr(a, "_isa_") and "SerializableType" in a._isa_), None)
-        if ty is not None and getattr(ty, "_opaque_", False):
+        def inspects(fn_: Any, value: Any) -> bool:
+            """does the callee look at the type it is handed (dispatch on its class, read its attributes)?  A helper that merely
+            passes the type on (a loop over elements, a wrapper) is entered like any other function"""
+            params = [x.arg for x in fn_.node.args.posonlyargs + fn_.node.args.args]
+            idx = next((i for i, a in enumerate(args) if a is value), None)
+            name_ = params[idx] if idx is not None and idx < len(params) else next((k for k, v in kwargs.items() if v is value), None)
+            if name_ is None:
+                return True
+            for n_ in ast.walk(fn_.node):
+                if isinstance(n_, ast.Call) and dotted(n_.func) in ("isinstance", "type") and n_.args and isinstance(n_.args[0], ast.Name) and n_.args[0].id == name_:
+                    return True
+                if isinstance(n_, ast.Attribute) and isinstance(n_.value, ast.Name) and n_.value.id == name_:
+                    return True
+            return False
+
+        if ty is not None and getattr(ty, "_opaque_", False) and inspects(fn, ty):
             val = next((a for a in args if a is not io and a is not ty), None)
             if last == "_default_value":
                 return ("DEFAULT-OF", ty.name)
@@ -336,7 +361,10 @@ def call_function(ctx: Ctx, fn: FuncInfo, args: List[Any], kwargs: Dict[str, Any
                 raise Unfoldable("argument %s of %s not given" % (p_, fn.name))
             env[p_] = Folder({}, ctx.repo, fn.module, None).fold(d)
     ev = Evaluator(env, ctx.repo, fn.module, None, codec_hook(ctx, sink, enter, chain))
-    return ev.run(body_without_docstring_(node))
+    r = ev.run(body_without_docstring_(node))
+    if any(isinstance(n, (ast.Yield, ast.YieldFrom)) for n in ast.walk(node)):
+        return list(ev.yielded)  # a generator, evaluated eagerly
+    return r
 
 
 def explore_codec(ctx: Ctx, fname: str, make_args: Callable[[Sink], Tuple[List[Any], Dict[str, Any]]], enter: Optional[Callable[[str, List[Any]], bool]] = None) -> List[CodecRun]:
